@@ -279,7 +279,10 @@ func (b *RefinementBuilder) NumberRangeLowerBound(min Value, inclusive bool) *Re
 		}
 	}
 
-	if min != NegativeInfinity {
+	if min != NegativeInfinity || !inclusive {
+		// An inclusive lower bound of negative infinity is the same as having
+		// no lower bound at all, but an exclusive one still excludes negative
+		// infinity itself and so we must remember it.
 		wip.min = min
 		wip.minInc = inclusive
 	}
@@ -330,7 +333,10 @@ func (b *RefinementBuilder) NumberRangeUpperBound(max Value, inclusive bool) *Re
 		}
 	}
 
-	if max != PositiveInfinity {
+	if max != PositiveInfinity || !inclusive {
+		// An inclusive upper bound of positive infinity is the same as having
+		// no upper bound at all, but an exclusive one still excludes positive
+		// infinity itself and so we must remember it.
 		wip.max = max
 		wip.maxInc = inclusive
 	}
@@ -667,10 +673,10 @@ func (r *refinementNumber) rawEqual(other unknownValRefinement) bool {
 func (r *refinementNumber) GoString() string {
 	var b strings.Builder
 	b.WriteString(r.refinementNullable.GoString())
-	if r.min != NilVal && r.min != NegativeInfinity {
+	if r.min != NilVal && (r.min != NegativeInfinity || !r.minInc) {
 		fmt.Fprintf(&b, ".NumberLowerBound(%#v, %t)", r.min, r.minInc)
 	}
-	if r.max != NilVal && r.max != PositiveInfinity {
+	if r.max != NilVal && (r.max != PositiveInfinity || !r.maxInc) {
 		fmt.Fprintf(&b, ".NumberUpperBound(%#v, %t)", r.max, r.maxInc)
 	}
 	return b.String()
